@@ -1,7 +1,7 @@
 (* C11 — no descriptor is leaked, closed twice, or closed without being owned (model: Unix.v). *)
 From Coq Require Import List Arith ZArith Bool Permutation.
 From IPC Require Import K KProofs Prog Ideal Unix UnixProofs.
-From IPC Require K Prog Ideal Api ApiProofs ApiInv.
+From IPC Require K Prog Ideal Api ApiProofs ApiInv Params.
 Import ListNotations.
 
 (* after ANY operation sequence (failing sends, moved receivers, clones, drops in any order): the open
@@ -56,3 +56,13 @@ Theorem C11_api_quiescent : forall ops,
 Proof. exact api_quiescent. Qed.
 Print Assumptions C11_api_quiescent.
 End ApiLevel.
+
+(* ---- "nor inherited": every way the back end has of creating or receiving a descriptor asks the kernel for close-on-exec AT CREATION
+   (no window in which another thread's fork+exec could inherit it).  The four facts are GENERATED from the source: the Linux
+   definitions of SOCK_FLAGS (socketpair / socket / accept4) and RECVMSG_FLAGS (descriptors that arrive with a message), the fcntl
+   command that duplicates region descriptors, the flags of memfd_create.  What each call site actually passes is checked at run
+   time from the interposer's trace (close-on-exec scan of the C08 / C11 / C12 drivers). ---- *)
+Theorem C11_creation_flags_cloexec :
+  Params.SOCK_FLAGS_CLOEXEC = true /\ Params.RECVMSG_FLAGS_CLOEXEC = true /\ Params.DUP_CLOEXEC = true /\ Params.MEMFD_CLOEXEC = true.
+Proof. repeat split; reflexivity. Qed.
+Print Assumptions C11_creation_flags_cloexec.
